@@ -485,6 +485,10 @@ def module_family(pid, tier, chk, n=None):
     elif pid == "C11":
         cases += DM.key_cases(chk, m)
         what += " + %d wide-alphabet key sets (quotes, backslashes, hyphens, dots, non-ASCII; in and out of the documented domain)" % m
+    if pid in ("C03", "C04", "C01"):
+        fx = DM.fixed_module_cases()
+        cases += fx
+        what += " + %d fixed cases (optional pseudo-typed fields, optional containers, nested model; every framework, converters on / off)" % len(fx)
     if pid in ("C03", "C04", "C11"):
         rn = DM.reserved_name_cases(chk, 120 if quick else 2000)
         cases += rn
